@@ -258,6 +258,9 @@ func affineOf(v ssa.Value, depth int) Affine {
 		if madeNonNeg(x) {
 			return symAffine("len(made:"+resolvedPath(v)+")", v)
 		}
+		if a, ok := helperResultAffine(x, depth); ok {
+			return a
+		}
 	}
 	return symAffine(resolvedPath(v), v)
 }
@@ -304,6 +307,64 @@ func madeNonNeg(v *ssa.Extract) bool {
 		}
 	}
 	return rets > 0
+}
+
+// helperResultAffine: the value is a result of a library helper all of whose
+// successful returns (nil error) hand back, at that position, the same
+// expression over the helper's parameters: that expression over the arguments.
+func helperResultAffine(x *ssa.Extract, depth int) (Affine, bool) {
+	call, ok := x.Tuple.(*ssa.Call)
+	if !ok || depth > 6 {
+		return Affine{}, false
+	}
+	callee := call.Call.StaticCallee()
+	if callee == nil || callee.Blocks == nil || callee.Pkg == nil || !strings.HasPrefix(callee.Pkg.Pkg.Path(), M) {
+		return Affine{}, false
+	}
+	rs := callee.Signature.Results()
+	errIdx := -1
+	if rs.Len() > 0 && isErrorType(rs.At(rs.Len()-1).Type()) {
+		errIdx = rs.Len() - 1
+	}
+	if x.Index == errIdx || !isNumeric(rs.At(x.Index).Type()) {
+		return Affine{}, false
+	}
+	args := ir.CallArgs(call)
+	var out Affine
+	have := false
+	for _, b := range callee.Blocks {
+		ret, isRet := b.Instrs[len(b.Instrs)-1].(*ssa.Return)
+		if !isRet || x.Index >= len(ret.Results) {
+			continue
+		}
+		if errIdx >= 0 && !ir.IsNilConst(ret.Results[errIdx]) {
+			continue // a failing return: the value is not used behind the error test
+		}
+		a := affineOf(ret.Results[x.Index], depth+1)
+		sub := newAffine()
+		sub.K = a.K
+		for sym, cf := range a.T {
+			p, isP := ir.StripConv(a.Sym[sym]).(*ssa.Parameter)
+			if !isP || p.Parent() != callee {
+				return Affine{}, false
+			}
+			idx := -1
+			for k, q := range callee.Params {
+				if q == p {
+					idx = k
+				}
+			}
+			if idx < 0 || idx >= len(args) {
+				return Affine{}, false
+			}
+			sub = sub.add(affineOf(args[idx], depth+1).scale(cf), 1)
+		}
+		if have && !sub.equal(out) {
+			return Affine{}, false
+		}
+		out, have = sub, true
+	}
+	return out, have
 }
 
 // nonNegSym: the symbol denotes a quantity that is never negative (a length,
